@@ -153,6 +153,9 @@ MAX_TTL = 2**32 - 1
 
 
 def valid_op(op, o, ab, r, ttl, form):
+    if form == 3:
+        # a two-record rdataset argument (the record r and the next A record of the pool): delete / delete_exact only
+        return op in (DEL_RDATA, DELX_RDATA) and 0 <= o <= NOWN and 0 <= r <= 2 and ttl == 0
     ok = 0 <= op <= 8 and 0 <= o <= NOWN and 0 <= r < len(POOL) and 0 <= ttl <= MAX_TTL + 1 and 0 <= form <= 2
     if not ok:
         return False
@@ -235,12 +238,24 @@ def apply_op(txn, model, pool, relativize, op, o, ab, r, ttl, form):
         t = POOL[r][0]
         if outside:
             want_exc = KeyError
+        elif form == 3:
+            r2 = (r + 1) % 3
+            i = m2.find(o, t)
+            present = [x for x in (r, r2) if i >= 0 and x in m2.nodes[o][i][2]]
+            if exact and len(present) != 2:
+                want_exc = dns.transaction.DeleteNotExact
+            else:
+                for x in present:
+                    m2.delete_rdata(o, t, x, False)
         else:
             res = m2.delete_rdata(o, t, r, exact)
             if res == "notexact":
                 want_exc = dns.transaction.DeleteNotExact
         try:
-            if form == 1:
+            if form == 3:
+                pair = dns.rdataset.from_rdata(0, pool[r], pool[(r + 1) % 3])
+                args = (name, pair)
+            elif form == 1:
                 args = (name, dns.rdataset.from_rdata(0, pool[r]))
             elif form == 2:
                 args = (dns.rrset.from_rdata(name, 0, pool[r]),)
@@ -376,6 +391,8 @@ def h10a_pre(op1, o1, ab1, r1, ttl1, f1, op2, o2, ab2, r2, ttl2, f2):
     if S("op1") is not None and op1 != S("op1"):
         return False
     if S("forms") is False and (f1 != 0 or f2 != 0):
+        return False
+    if f1 == 3 and S("state") not in ("base", "www1"):
         return False
     if S("n") == 2:
         return valid_op(op2, o2, ab2, r2, ttl2, f2)
